@@ -991,6 +991,17 @@ class Interp:
             return
         if isinstance(t, ast.Subscript):
             base = self.expr(t.value, fr, g)
+            if self.explorer is None and isinstance(base, np.ndarray) and base.dtype == object and not isinstance(t.slice, (ast.Slice, ast.Tuple)):
+                raw = self.expr(t.slice, fr, g)
+                if isinstance(raw, np.ndarray) and raw.dtype == object and raw.shape == base.shape and any(isinstance(x, SBool) for x in raw.ravel()):
+                    # a[mask] = scalar with a symbolic mask (merge mode): element-wise conditional store
+                    if isinstance(v, (np.ndarray, list, tuple)):
+                        raise NeedConcrete('masked store of a sequence under a symbolic mask')
+                    for i in np.ndindex(base.shape):
+                        self.setitem(base, i, v, And(g, raw[i]))
+                    return
+                self.setitem(base, self.as_index(raw), v, g)
+                return
             idx = self.index(t.slice, fr, g)
             self.setitem(base, idx, v, g)
             return
@@ -1040,6 +1051,10 @@ class Interp:
                 raise NeedConcrete(g)
             base[idx] = v
             return
+        if isinstance(base, (tuple, str, bytes)):
+            if g is True:
+                raise PathRaise(TypeError, f"'{type(base).__name__}' object does not support item assignment")
+            raise NeedConcrete(g)
         if not isinstance(base, np.ndarray):
             if g is not True or has_sym(v):
                 raise Unsupported("setitem on " + type(base).__name__)
